@@ -317,6 +317,28 @@ func (fc *FuncCtx) atAsserts(c *ssa.CallCommon, args []TV, st *State, reach stri
 			// old(...) in a rule of the top function is the top function's entry, also at a site inside an
 			// inlined helper
 			env.old = t.s0
+			// #k at a call site: the index of the current element / iteration of the innermost counted loop
+			// around the call (not inside inlined helpers)
+			if fc.top == nil && fc.curInstr != nil && fc.curInstr.Block() != nil {
+				var inner *loopInfo
+				for _, li := range fc.loopOrd {
+					if li.body[fc.curInstr.Block()] && (inner == nil || len(li.body) < len(inner.body)) {
+						inner = li
+					}
+				}
+				if inner != nil {
+					li := inner
+					if cp, isRange := counterPhi(li.head, func(p *ssa.BasicBlock) bool { return li.body[p] }); cp != nil {
+						if tv, ok := fc.val[cp]; ok {
+							if isRange {
+								env.iter = "(+ " + tv.T + " 1)"
+							} else {
+								env.iter = tv.T
+							}
+						}
+					}
+				}
+			}
 		}
 		var tt string
 		if err := catchTr(fmt.Sprintf("%s at-rule %d", t.fnName, i), func() { tt = env.trBool(r.C.E) }); err != nil {
